@@ -706,6 +706,9 @@ fn recheck(c: &Case) -> Vec<Violation> {
     if c.cfg.get("census").is_some() {
         return crate::props::builder_ops::check_case(c);
     }
+    if c.cfg.get("op_names").is_some() {
+        return crate::props::builder_ops::check_op_name_case(c);
+    }
     if c.cfg.get("block_type_census").is_some() {
         return crate::props::builder_ops::check_block_type_case(c);
     }
@@ -769,6 +772,19 @@ pub fn run(args: &Args) -> i32 {
         ev.evaluations += 1;
         ev.transitions += 1;
         viol.extend(crate::props::builder_ops::check_case(c));
+    }
+    {
+        let mut ev2 = Ev::new("C15");
+        let cen = crate::props::census::cases(args, &mut ev2);
+        let oc = crate::props::builder_ops::op_name_cases(&cen);
+        let mut names = std::collections::BTreeSet::new();
+        for c in &oc {
+            ev.evaluations += 1;
+            ev.transitions += 2;
+            names.insert(c.cfg["wasm_op"].as_str().unwrap_or("").to_string());
+            viol.extend(crate::props::builder_ops::check_op_name_case(c));
+        }
+        ev.extra.insert("builder_operator_name_census".into(), json!({"cases": oc.len(), "distinct_unary_and_binary_operators": names.len()}));
     }
     let bc = crate::props::builder_ops::block_type_cases();
     for c in &bc {
